@@ -115,6 +115,10 @@ func (g *PG) listItem(positive bool) ListItem {
 	case 0:
 		a := g.Sc.Alpha[g.R.Intn(len(g.Sc.Alpha))]
 		b := a + byte(g.R.Intn(3))
+		if positive && g.Sc.MultiByteItems && g.R.Chance(1, 5) {
+			// bounds of different lengths: 'a' to 'bb' holds a, aa .. az, b, ba, bb (string order), longest reading first
+			return ListItem{Kind: "range", From: string([]byte{a}), To: string([]byte{b, g.Sc.Alpha[g.R.Intn(len(g.Sc.Alpha))]})}
+		}
 		return ListItem{Kind: "range", From: string([]byte{a}), To: string([]byte{b})}
 	case 1:
 		return ListItem{Kind: "class", Class: classKinds[1+g.R.Intn(len(classKinds)-1)]}
